@@ -133,7 +133,9 @@ def enumerate_programs(tier, seed):
                     b2 = dict(b, name=a['new'])
                 progs.append(('%s/%d-%d' % (bname, i, j), bname, [a, b2]))
     if tier == 'thorough':
-        rnd = random.Random(seed)
+        # fixed seed: the known-findings list is tied to the enumerated set of programs, so the
+        # thorough tier does not vary with VERIF_SEED (stated in the evidence)
+        rnd = random.Random(20260927)
         for bname, spec in base_specs().items():
             A = mutation_alphabet(spec)
             for n in range(1500):
@@ -269,8 +271,10 @@ def signature(rec):
     import re
     kinds = sorted(set(k.split(':')[0] if not k.startswith('exec') else re.sub(r': .*', '', k)
                        for k in rec.get('diff_kinds', [])))
-    return '%s | %s | %s' % (rec['base'], ' + '.join(sorted(set(op_kind(m) for m in rec['muts']))),
-                             ' + '.join(kinds))
+    ops = ' + '.join(sorted(set(op_kind(m) for m in rec['muts'])))
+    if '/r' in rec['id']:
+        ops = '*'       # seeded random sequences: identified by base and kind of difference only
+    return '%s | %s | %s' % (rec['base'], ops, ' + '.join(kinds))
 
 
 def analyse(args):
@@ -302,7 +306,16 @@ def analyse(args):
             rec['status'] = 'invalid'
             rec['detail'] = 'rejected by the real code: %s' % (str(e)[:200],)
             return rec
-        except FieldDoesNotExist as e:
+        except Exception as e:
+            if not isinstance(e, FieldDoesNotExist) and '/r' in pid:
+                # seeded random sequence that the real code does not survive (e.g. renaming a field
+                # onto itself): counted, not analysed; the systematic programs never end up here
+                rec['status'] = 'invalid'
+                rec['detail'] = 'random sequence crashed the generator: %s: %s' % (type(e).__name__, str(e)[:150])
+                rec['crash'] = True
+                return rec
+            if not isinstance(e, FieldDoesNotExist):
+                raise
             # a Meta option naming a field that does not exist (any more): Django itself rejects
             # such models, so the program has no "freshly created" counterpart
             rec['status'] = 'invalid'
@@ -333,6 +346,19 @@ def analyse(args):
             try:
                 D.execute(sqls[0])
             except Exception as e:
+                # a sequence that passes through models Django itself would reject (a Meta option
+                # naming a field that has just been deleted) is invalid input, whatever follows
+                cur, bad_step = spec, False
+                for d_ in muts:
+                    cur = D.apply_to_spec(cur, d_)
+                    try:
+                        D.check_valid(cur)
+                    except KeyError:
+                        bad_step = True
+                if bad_step:
+                    rec['status'] = 'invalid'
+                    rec['detail'] = 'intermediate models invalid; execution failed: %s' % (str(e)[:150],)
+                    return rec
                 rec['status'] = 'violation'
                 rec['detail'] = 'executing the generated SQL failed: %s: %s' % (type(e).__name__, str(e)[:200])
                 rec['replay'] = {'reproduced': True, 'kind': 'execution'}
@@ -559,6 +585,7 @@ def run(prop, tier):
             'samples': samples or [{'note': 'none'}],
             'programs_enumerated': len(recs),
             'invalid_programs': counts.get('invalid', 0),
+            'random_sequences_crashing_generator': len([r for r in recs if r.get('crash')]),
             'unsupported_programs': counts.get('unsupported', 0),
             'unsupported_reasons': sorted(set(r.get('detail', '')[:120] for r in recs if r['status'] == 'unsupported'))[:20],
             'encoding_mismatches': [{'program': r['id'], 'detail': r.get('detail', '')[:200], 'replay': r.get('replay')}
